@@ -177,7 +177,7 @@ def run(ctx):
     only = [x for x in (ctx_env("VERIF_C01_CLASSES") or "").split(",") if x]
     nq = {}
     for dname, drv in D.DRIVERS.items():
-        if only and dname not in only:
+        if (only and dname not in only) or getattr(drv, "c06_only", False):
             continue
         models = drv.models(ctx.tier)
         call, cone = [], []
